@@ -9,6 +9,7 @@ import (
 	"fmt"
 	"reflect"
 	"regexp"
+	"sort"
 	"strconv"
 	"strings"
 
@@ -395,6 +396,10 @@ func evaluateCollectionExpression(expression *grammar.CollectionExpression, datu
 			return false, fmt.Errorf("%s can only iterate over maps indexed with strings", expression.Op)
 		}
 		keys = v.MapKeys()
+		// Go randomizes map iteration order and the loop below stops at the
+		// first decisive element or the first error, so visit the entries in
+		// sorted key order to make the outcome a function of the data alone.
+		sort.Slice(keys, func(i, j int) bool { return keys[i].String() < keys[j].String() })
 	}
 
 	switch v.Kind() {
